@@ -14,6 +14,23 @@ REPO_ROOT = os.environ.get("SPVERIF_REPO", "/repo")
 PKG = "spowtd"
 
 
+def clone(node):
+    """Copy of an AST subtree by its syntactic fields only (copy.deepcopy would follow the
+    `parent` / `_mod` links this model adds and copy the whole module, recursively)."""
+    if isinstance(node, ast.AST):
+        new = type(node)()
+        for f in node._fields:
+            if hasattr(node, f):
+                setattr(new, f, clone(getattr(node, f)))
+        for a in ("lineno", "col_offset", "end_lineno", "end_col_offset"):
+            if hasattr(node, a):
+                setattr(new, a, getattr(node, a))
+        return new
+    if isinstance(node, list):
+        return [clone(x) for x in node]
+    return node
+
+
 class AnalysisError(Exception):
     """The analysis cannot decide: anchor vanished, parse failure, ..."""
 
